@@ -71,6 +71,22 @@ def do_fit(c):
     if 'alpha' in seen:
         out['alpha'] = [fl(row) for row in seen['alpha']]
         out['mininf'] = seen['mininf']
+    # what iterfit does after a status -1: fit again on the same object (must end in a status code too)
+    if c.get('refit'):
+        seq = [int(status)]
+        try:
+            st = status
+            for _ in range(4):
+                if st != -1:
+                    break
+                with warnings.catch_warnings():
+                    warnings.simplefilter('ignore')
+                    st, _yf = sset.fit(xs, ys, ws)
+                seq.append(int(st))
+            out['refit'] = {'statuses': seq, 'finite': bool(np.all(np.isfinite(np.asarray(sset.coeff, dtype='d'))))}
+        except Exception as e:  # noqa: BLE001
+            out['refit'] = err(e, 'refit')
+            out['refit']['statuses'] = seq
     # algebraic laws on the real code (each one a fresh bspline on the same breakpoints)
     laws = {}
     for name, y in (c.get('extra') or {}).items():
